@@ -178,6 +178,11 @@ func claimTemplates(n int, withLabels bool) []v1.PersistentVolumeClaim {
 	for i := 0; i < n; i++ {
 		c := v1.PersistentVolumeClaim{}
 		c.Name = fmt.Sprintf("vol%d", i)
+		if withLabels && i == 0 {
+			// an unusual but admitted input: a template that names a namespace of its
+			// own; claims must still be created in the set's namespace
+			c.Namespace = "staging"
+		}
 		if withLabels && i%2 == 0 {
 			c.Labels = map[string]string{"claim": c.Name}
 		}
